@@ -51,7 +51,9 @@ C10_Safe(ev, m) ==
     /\ S!Checksalt(Enabled, ev.res) # S!SALT_INVALID
     /\ LET p == S!Parse(Enabled, m, ev.res, 5) IN
          /\ p.k # "fail"
-         /\ (p.k = "ok" => S!StartsWith(p.canon \o S!SepOf(m), ev.res))       \* kept literally in the hash
+         \* kept literally in the hash (for the traditional DES settings: the two salt characters)
+         /\ (p.k = "ok" => IF m \in {"bigcrypt", "descrypt"} THEN S!StartsWith(ev.res, p.canon)
+                           ELSE S!StartsWith(p.canon \o S!SepOf(m), ev.res))
 C10_Deterministic(ev) ==
   (ev.gprev > 0 /\ ev.gprev < l /\ IsGs(T[ev.gprev].e) /\ SameReq(T[ev.gprev], ev)
      /\ Size(T[ev.gprev]) >= G!GENSALT_OUTPUT_SIZE /\ Size(ev) >= G!GENSALT_OUTPUT_SIZE /\ ev.rbnull = 0)
